@@ -60,7 +60,7 @@ CHECKS.update({
          'Trusted: TLAPS 1.6 back ends; the Go scheduler for the stress part (a lock lost between two application callbacks shows only if the race occurs in the recorded runs, or kills the process with a runtime fatal error, which is reported as a violation); causal ordering of store saves and channel receipts by one atomic counter.'),
  'C05': ('model_checking', 'TLC model checking of Pair.tla (two Engine.tla machines, in-flight queues, sends, deliveries, cuts, reconnects, timer events, restarts; safety and completion after Stabilize(4)) + graph-covering and random fault schedules executed on two REAL sessions stepped against each other (memory stores; file stores with engine restarts) + TLC trace validation (PairTrace.tla: monitors and conformance of both engines) + timed schedules on the real Acceptor and Initiator over loopback TCP through a cutting proxy (PairLiveTrace.tla)',
          'Exhaustive on <= 3 sends, <= 2 cuts, <= 1 restart, <= 2 timer events, <= 3 messages in flight; on the code every edge of the cut-only graph plus hundreds (quick) / thousands (thorough) of random schedules with cuts, reconnects, heartbeats, peer timeouts and restarts, also with ResendRequestChunkSize 2; 12 (quick) / 96 (thorough) timed runs of the real network engines with cuts, sends while the link is down and re-creations of the initiator on its file store.', '6 C05',
-         SESSION_NOTE + ' The forced schedules use no sockets or wall-clock timers (the link staying up is the deterministic settling operator); the TCP runs are timed, not forced (HeartBtInt 1 s, link up for up to 25 s).'),
+         SESSION_NOTE + ' The forced schedules use no sockets or wall-clock timers (the link staying up is the deterministic settling operator); the TCP runs are timed, not forced (HeartBtInt 1 s, link up for up to 90 s).'),
 })
 NA = {}
 for l in open(V + '/properties.jsonl'):
